@@ -2,7 +2,7 @@
      H <hex> | F <testdata name> <off:val,...|-> | SIZES
    first token of argv (optional): "unfixed" runs the model of the code before the fix commits.
    output:  R=..;SI=..;TL=..;...;EXP=..;led=<largest ledger entry>   or "?" (case not predicted) *)
-let tags = [| "R"; "SI"; "TL"; "ML"; "UM"; "MEM"; "M64"; "MI"; "TI"; "TN"; "HD"; "EX"; "EXP"; "EXC"; "TLP"; "MS"; "LC"; "LS"; "LR"; "LE"; "LL"; "MA"; "CP"; "SIS"; "AS"; "BP"; "MB"; "SE"; "MC"; "RM"; "RI"; "CA"; "TE"; "AM"; "AL"; "AI"; "A6"; "TG"; "TS" |]
+let tags = [| "R"; "SI"; "TL"; "ML"; "UM"; "MEM"; "M64"; "MI"; "TI"; "TN"; "HD"; "EX"; "EXP"; "EXC"; "TLP"; "MS"; "LC"; "LS"; "LR"; "LE"; "LL"; "MA"; "CP"; "SIS"; "AS"; "BP"; "MB"; "SE"; "MC"; "RM"; "RI"; "CA"; "TE"; "AM"; "AL"; "AI"; "A6"; "TG"; "TS"; "TIG" |]
 let kinds = [| "none"; "x86"; "amd64"; "ppc"; "ppc64"; "sparc"; "arm"; "arm64"; "arm64old"; "mips" |]
 let err_names = [| "MissingHeader"; "HeaderMismatch"; "VersionMismatch"; "MissingDirectory"; "StreamReadFailure";
                    "StreamSizeMismatch"; "StreamNotFound"; "ModuleReadFailure"; "MemoryReadFailure"; "DataError";
